@@ -345,6 +345,32 @@ class Gen(object):
                 body['bogus'] = 1                     # additionalProperties
             else:
                 body['allocations'] = 'nope'
+        if k in ('inv_put_all', 'inv_put_one', 'inv_post', 'reshape') \
+                and r.random() < 0.35:
+            # a ratio no inventory can have: negative, or beyond what a
+            # float column holds (-1e400 and 1e400 are valid JSON and parse
+            # to -inf / inf).  Refused by the schema that the inventory
+            # routes and the reshaper share.
+            bad = self.pick([float('-inf'), -1.0, -0.5, float('inf')])
+            if k == 'inv_put_all':
+                if not b['inventories']:
+                    return
+                tgt = b['inventories'][self.pick(sorted(b['inventories']))]
+            elif k == 'reshape':
+                rps = [u for u in sorted(b['inventories'])
+                       if b['inventories'][u]['inventories']]
+                if not rps:
+                    return
+                invs = b['inventories'][self.pick(rps)]['inventories']
+                tgt = invs[self.pick(sorted(invs))]
+            else:
+                tgt = b
+            tgt['allocation_ratio'] = bad
+            if bad == float('-inf') and r.random() < 0.5:
+                # 0 * -inf is NaN, and nothing is smaller than NaN
+                tgt['reserved'] = tgt['total']
+            op['defect'] = 'schema'
+            return
         if k == 'alloc_put':
             break_alloc_body(b)
         elif k == 'alloc_post':
@@ -807,6 +833,14 @@ class Gen(object):
         else:
             b = {'allocations': {rp: {'resources': dict(res)}
                                  for rp, res in alloc.items()}}
+            if alloc and self.chance(0.1):
+                # what GET /allocations/{c} returns may be sent back as it
+                # is: the per-provider generation is accepted and ignored
+                for rp in b['allocations']:
+                    if self.chance(0.7):
+                        cur = m.providers.get(rp, {}).get('generation', 0)
+                        b['allocations'][rp]['generation'] = self.pick(
+                            [cur, cur, max(0, cur - 1), cur + 1, 0])
         if vv >= (1, 8):
             cur = m.consumers.get(c)
             if cur and self.chance(0.7):
@@ -934,17 +968,26 @@ class Gen(object):
         vv = M.ver(v)
         exists = c in m.consumers
         clear = vv >= (1, 28) and self.chance(0.15)
+        same_again = False
         if clear:
             alloc = {}
+        elif self.chance(0.1) and m.allocations:
+            # a client writing back exactly what a consumer holds (to change
+            # the project, user or type, or after healing): checked like any
+            # other write - the inventory may have changed under it
+            c = self.pick(sorted(m.allocations))
+            exists = True
+            alloc = {rp: dict(res) for rp, res in m.allocations[c].items()}
+            same_again = True
         else:
             alloc, _ = self._valid_alloc(m, {c})
             if not alloc:
                 return None
         d = None
         cg = 'right'
-        keen = (self.p_odd_units > 0.1 and not clear and
+        keen = (self.p_odd_units > 0.1 and not clear and not same_again and
                 self._has_odd_units(m) and self.chance(0.5))
-        if keen or self.chance(self.invalid_rate):
+        if (keen or self.chance(self.invalid_rate)) and not same_again:
             choices = ['unknown_rp', 'unknown_rc', 'no_inventory', 'unit',
                        'over', 'zero_room']
             if vv >= (1, 28):
